@@ -488,3 +488,90 @@ Example filter_hypotheses_satisfiable :
   let F := fun (times xs : list R) (g : R -> R * R) (fr : bool) => if Nat.eqb (length times) (length xs) then xs else map (fun _ => 0) times in
   (forall times xs g fr, length times = length xs -> (forall u, cabs (g u) <= 1) -> energy (F times xs g fr) <= energy xs).
 Proof. intros F times xs g fr L _. unfold F. rewrite L, Nat.eqb_refl. lra. Qed.
+
+(* ---- assembled statements (the Props file only says `exact`) ---- *)
+Lemma response_linear_antenna_stmt :
+  forall F : list R -> list R -> (R -> R * R) -> bool -> list R,
+  (forall times xs g fr, (length times <= 2 * length xs)%nat -> length (F times xs g fr) = length times) ->
+  (forall times xs ys a b g fr n, length xs = length ys -> length times = length xs -> (n < length times)%nat ->
+     nth n (F times (lincomb a b xs ys) g fr) 0 = a * nth n (F times xs g fr) 0 + b * nth n (F times ys g fr) 0) ->
+  forall self dir pol fr a b x y,
+  well_formed x -> sg_times y = sg_times x -> sg_type y = sg_type x -> length (sg_values y) = length (sg_values x) ->
+  Antenna_apply_response (sig_filter_of F) self (sig_lincomb a b x y) dir pol fr
+  = opt_lincomb a b (Antenna_apply_response (sig_filter_of F) self x dir pol fr)
+                    (Antenna_apply_response (sig_filter_of F) self y dir pol fr).
+Proof.
+  intros F H1 H2. exact (antenna_response_linear F H1 H2).
+Qed.
+
+Lemma response_linear_dipole_stmt :
+  forall F : list R -> list R -> (R -> R * R) -> bool -> list R,
+  (forall times xs g fr, (length times <= 2 * length xs)%nat -> length (F times xs g fr) = length times) ->
+  (forall times xs ys a b g fr n, length xs = length ys -> length times = length xs -> (n < length times)%nat ->
+     nth n (F times (lincomb a b xs ys) g fr) 0 = a * nth n (F times xs g fr) 0 + b * nth n (F times ys g fr) 0) ->
+  forall self dir pol fr a b x y,
+  well_formed x -> sg_times y = sg_times x -> sg_type y = sg_type x -> length (sg_values y) = length (sg_values x) ->
+  DipoleAntenna_apply_response (sig_filter_of F) self (sig_lincomb a b x y) dir pol fr
+  = opt_lincomb a b (DipoleAntenna_apply_response (sig_filter_of F) self x dir pol fr)
+                    (DipoleAntenna_apply_response (sig_filter_of F) self y dir pol fr).
+Proof.
+  intros F H1 H2. exact (dipole_response_linear F H1 H2).
+Qed.
+
+Lemma rotation_identities_stmt : forall a b c d u v,
+  vdot (qrot a b c d u) (qrot a b c d v) = qn2 a b c d * qn2 a b c d * vdot u v /\
+  vcross (qrot a b c d u) (qrot a b c d v) = vscale (qn2 a b c d) (qrot a b c d (vcross u v)).
+Proof.
+  intros. split; [apply qrot_dot | apply qrot_cross].
+Qed.
+
+Lemma dipole_gains_stmt : forall self dv p,
+  orthonormal_axes self -> vnorm dv <> 0 ->
+  let dhat := vnormalize dv in
+  dip_dgain self (Some dv) = vnorm (vcross (Ant_z_axis self) dhat) /\
+  dip_dgain self (Some dv) = sqrt (1 - vdot (Ant_z_axis self) dhat * vdot (Ant_z_axis self) dhat) /\
+  (exists theta, 0 <= theta <= PI /\ cos theta = vdot (Ant_z_axis self) (vopp dhat) /\ dip_dgain self (Some dv) = sin theta) /\
+  dip_pgain self (Some p) = vdot (Ant_z_axis self) (vnormalize p).
+Proof.
+  intros self dv p H1 H2. destruct (dipole_directional_gain self dv H1 H2) as (A & B & C).
+  repeat split; try assumption.
+Qed.
+
+Lemma dipole_output_energy_bound_stmt :
+  forall F : list R -> list R -> (R -> R * R) -> bool -> list R,
+  (forall times xs g fr, length times = length xs -> (forall u, cabs (g u) <= 1) -> energy (F times xs g fr) <= energy xs) ->
+  forall pos z x eff fc bw eh s dir pol fr o,
+  0 < fc - bw / 2 -> 0 < bw -> well_formed s ->
+  DipoleAntenna_apply_response (sig_filter_of F) (dipole_of_params pos z x eff fc bw eh) s dir pol fr = Some o ->
+  exists k, sg_values o = map (Rmult k) (F (sg_times s) (sg_values s)
+               (fun f => DipoleAntenna_frequency_response (dipole_of_params pos z x eff fc bw eh) f) fr)
+            /\ energy (sg_values o) <= k * k * energy (sg_values s).
+Proof.
+  intros F H. exact (dipole_energy_bound F H).
+Qed.
+
+Lemma receive_rejects_before_state_change_stmt : forall (P : Type) (apply : Sig -> P -> option Sig) signals lens_ok inputs,
+  (exists s p, In (s, p) inputs /\ apply s p = None) ->
+  receive_model apply signals lens_ok inputs = (signals, RecvValueError).
+Proof.
+  intros P. exact (@receive_rejects_atomically P).
+Qed.
+
+Lemma receive_appends_one_or_nothing_stmt : forall (P : Type) (apply : Sig -> P -> option Sig) signals lens_ok inputs,
+  let '(st, r) := receive_model apply signals lens_ok inputs in
+  (r = RecvOk /\ exists total, st = signals ++ [total]) \/ (r <> RecvOk /\ st = signals).
+Proof.
+  intros P. exact (@receive_state_cases P).
+Qed.
+
+Lemma receive_sums_components_stmt : forall (P : Type) (apply : Sig -> P -> option Sig) signals s1 p1 s2 p2 o1 o2,
+  apply s1 p1 = Some o1 -> apply s2 p2 = Some o2 ->
+  sg_times o1 = sg_times o2 -> sg_type o1 = ty_voltage -> sg_type o2 = ty_voltage ->
+  receive_model apply signals true [(s1, p1)] = (signals ++ [o1], RecvOk) /\
+  receive_model apply signals true [(s1, p1); (s2, p2)]
+  = (signals ++ [mkSig (sg_times o1) (vals_add (sg_values o1) (sg_values o2)) ty_voltage], RecvOk).
+Proof.
+  intros P apply signals s1 p1 s2 p2 o1 o2 H1 H2 T Y1 Y2. split.
+  - apply receive_single; assumption.
+  - apply receive_pair; assumption.
+Qed.
